@@ -15,7 +15,13 @@
    with a KNOWN line.  The finding is about an item k whose successor arrives in a later read: an item
    that was yielded while the beginning of a further frame was already in the buffer (`early') is not
    covered by it - zlink only yields items once the bytes read end with a terminator - so a change of
-   such an item is rejected as well. *)
+   such an item is rejected as well.  What the deviation does to a held item is pinned down too: the
+   pinned code gives every transport read the buffer from its fill position on and puts one end marker
+   behind what the read delivered, and it frees the buffer when it has to grow.  A changed byte of a held
+   item is therefore explained only if the block it lies in was freed since (`freed') or if it lies in
+   the part of a later read's window that was filled, end marker included (`windows', measured by the
+   scripted transport; `changed' = the runs of changed bytes; all relative to the item's first byte).
+   Any other change - a byte behind the end marker, a part of the buffer no read touched - is rejected. *)
 EXTENDS Framing, Json, IOUtils, TLC, FiniteSets
 
 CONSTANT AllowHeldClobber
@@ -89,7 +95,11 @@ TItem == /\ IsEv("item") /\ st = "sent" /\ ~NothingOwed
 TCheck == /\ IsEv("check")
           /\ LET e == Rec[l] IN
              \/ e.same /\ kf' = kf
-             \/ ~e.same /\ AllowHeldClobber /\ e.k \in stale /\ e.k \notin early /\ kf' = TRUE
+             \/ /\ ~e.same /\ AllowHeldClobber /\ e.k \in stale /\ e.k \notin early
+                /\ \/ e.freed
+                   \/ \A i \in 1..Len(e.changed) : \E j \in 1..Len(e.windows) :
+                          e.windows[j][1] <= e.changed[i][1] /\ e.changed[i][2] <= e.windows[j][2]
+                /\ kf' = TRUE
           /\ UNCHANGED <<fvars, cs, docs, st, cur, open, nw, items, stale, early, sid>>
 
 \* the stream ends exactly when nothing more is owed
